@@ -266,6 +266,9 @@ func PerturbRules(rng *rand.Rand, tagRules string, t reflect.Type, id string) st
 	return strings.Join(out, ",")
 }
 
+// SplitOutsideQuotes splits rule text at the commas that are not inside single quotes.
+func SplitOutsideQuotes(s string) []string { return splitOutsideQuotes(s) }
+
 func splitOutsideQuotes(s string) []string {
 	var out []string
 	cur := []byte{}
